@@ -38,6 +38,16 @@ func init() {
 			}
 		}
 		res.Counters["step_errors_observed"] += len(x.C.Errors)
+		for _, n := range x.C.Nodes {
+			if n == nil || n.FFStep < 0 || len(n.App.Restores) == 0 {
+				continue
+			}
+			res.Counters["ff_done"]++
+			if n.Stalled > 0 {
+				res.Counters["ff_stalled_nodes"]++
+			}
+			res.Counters["ff_blocks_after_reset"] += len(n.App.Commits)
+		}
 	}
 
 	checks["C05"] = func(args []string) int {
